@@ -12,7 +12,8 @@ the download, a chunk shorter than the part size is the last one (and is still w
 advance by the part size; the default part size is 512 KiB. -/
 theorem source_rules :
     Facts.C33.emptyStops = true ∧ Facts.C33.lastIsShorter = true ∧ Facts.C33.allocStepIsPartSize = true ∧
-    Facts.C33.writeBeforeLastCheck = true ∧ Facts.C33.defaultPartSize = 512 * 1024 := by decide
+    Facts.C33.writeBeforeLastCheck = true ∧ Facts.C33.defaultPartSize = 512 * 1024 ∧
+    Facts.C33.readerRetryUnbounded = true ∧ Facts.C33.verifierRetryUnbounded = true := by decide
 
 /-- Streaming: for every file and part size ≥ 1 the bytes handed to the `io.Writer`, in order, are
 exactly the file (no gap, no duplicate, correct length), and the loop terminates. -/
@@ -70,6 +71,28 @@ theorem retries_transparent (l : List Resp) (h : Resp.err ∉ l) : (attempts l).
     | err => simp at h
     | flood => simp only [attempts]; exact ih (by intro hm; exact h (List.mem_cons_of_mem _ hm))
     | timeout => simp only [attempts]; exact ih (by intro hm; exact h (List.mem_cons_of_mem _ hm))
+
+/-- Retry transparency is unbounded: after ANY number `n` of consecutive retryable faults (each a
+FLOOD_WAIT or a retryable timeout) on one `(offset, limit)` the chunk is still obtained, with exactly
+`n + 1` identical requests.  (The retry branch of `reader.next` / `verifier.next` has no limit:
+`readerRetryUnbounded`, `verifierRetryUnbounded` in `source_rules`.) -/
+theorem retries_unbounded (faults : List Resp) (hf : ∀ r ∈ faults, r = .flood ∨ r = .timeout)
+    (rest : List Resp) (hrest : rest = [] ∨ rest.head? = some .ok) :
+    attempts (faults ++ rest) = (faults.length + 1, true) := by
+  induction faults with
+  | nil =>
+    rcases hrest with h | h
+    · subst h; rfl
+    · cases rest with
+      | nil => rfl
+      | cons x t => simp only [List.head?_cons, Option.some.injEq] at h; subst h; rfl
+  | cons r faults ih =>
+    have := ih (fun x hx => hf x (List.mem_cons_of_mem _ hx))
+    rcases hf r (List.mem_cons_self) with h | h <;> subst h <;>
+      simp only [List.cons_append, attempts, this, List.length_cons]
+
+/-- Non-vacuity: 25 timeouts in a row, then the chunk. -/
+example : attempts (List.replicate 25 .timeout ++ [.ok]) = (26, true) := by decide
 
 /-- Non-vacuity: a 7-byte file with part size 3 streams as 3+3+1 bytes in three requests … -/
 example : stream (fileServer [1, 2, 3, 4, 5, 6, 7]) 3 8 0 =
